@@ -26,7 +26,8 @@ Definition ex_f : expr :=
    generator state: when the preparation is accepted and generate_draws succeeds, the column number of
    each draw variable d is its position in the sorted list of the draw-variable names, and what the
    engine reads for d at draw r of observation o is cell [o][r] of an array returned by the generator
-   registered for the type d is declared with (ty = the last declaration, see T10a'). *)
+   registered for THE type d is declared with (an accepted preparation has one type per name: prepare
+   checks it, IdManager._check_types_of_draws): variable A is fed series A. *)
 Theorem T10a_table_indexing :
   forall (A S : Type) (native user : gdict A S) (fs : list expr) (cols : list string) (N R : nat) (s : S)
          (t : idtable) (table : tensor A) (s' : S) (d : string),
@@ -35,7 +36,7 @@ Theorem T10a_table_indexing :
     t_draws t = sorted_names (flat_map (names_of_kind KDraws) fs) /\
     exists k ty g st m st',
       draw_id t d = Some (Z.of_nat k) /\ nth_error (t_draws t) k = Some d /\
-      assoc d (draw_types fs) = Some ty /\ In (d, ty) (draws_decls fs) /\
+      In (d, ty) (draws_decls fs) /\ (forall ty0, In (d, ty0) (draws_decls fs) -> ty0 = ty) /\
       find_generator A S native user ty = Some g /\
       g st N R = (m, st') /\ has_shape A N R m = true /\
       forall o r, o < N -> r < R ->
@@ -52,11 +53,9 @@ Example T10a_example :
     engine_draw Z t table 0 1 "mm" = Some (3 * 1024 + 0 + 1)%Z.
 Proof. eexists. eexists. split; [vm_compute; reflexivity|]. repeat split. Qed.
 
-(* T10a'. When every name is declared with one type only, the series is produced by the generator of
-   the type of ANY declaration of d: variable A is fed series A. *)
+(* T10a'. The same, stated from any declaration (d, ty0) of the formulas. *)
 Theorem T10a_table_indexing_consistent :
   forall (A S : Type) (native user : gdict A S) fs cols N R s t table s' d ty0,
-    types_consistent fs ->
     prepare_draws A S native user fs cols N R s = Some (t, Ok (table, s')) ->
     In (d, ty0) (draws_decls fs) ->
     exists k g st m st',
@@ -68,11 +67,21 @@ Theorem T10a_table_indexing_consistent :
 Proof. exact table_indexing_consistent. Qed.
 Print Assumptions T10a_table_indexing_consistent.
 
-(* Without that hypothesis the statement is false: a name declared twice with two types is accepted
-   and every occurrence reads the series of the LAST declared type (finding C10/mc/conflicting-types). *)
+(* A name declared with two different types is refused, whatever the generators, N, R. *)
+Theorem T10a_conflicting_types_refused :
+  forall (A S : Type) (native user : gdict A S) fs cols N R s d t1 t2,
+    In (d, t1) (draws_decls fs) -> In (d, t2) (draws_decls fs) -> t1 <> t2 ->
+    prepare_draws A S native user fs cols N R s = None.
+Proof. exact conflicting_types_refused. Qed.
+Print Assumptions T10a_conflicting_types_refused.
+
+(* The check is necessary: without it (prepare_draws_unchecked, the code before the repair 2054030) a name
+   declared with two types is accepted and every occurrence reads the series of the LAST declared type;
+   with it the same formula is refused. *)
 Theorem T10a_conflicting_types_refuted :
   exists (fs : list expr) (user : gdict Z unit) t table gA,
-    prepare_draws Z unit [] user fs [] 1 1 tt = Some (t, Ok (table, tt)) /\
+    prepare_draws_unchecked Z unit [] user fs [] 1 1 tt = Some (t, Ok (table, tt)) /\
+    prepare_draws Z unit [] user fs [] 1 1 tt = None /\
     In ("a"%string, "TA"%string) (draws_decls fs) /\
     find_generator Z unit [] user "TA" = Some gA /\
     get2 Z (fst (gA tt 1 1)) 0 0 = Some 1%Z /\
@@ -134,7 +143,7 @@ Theorem T10b_engine_draws_own_series :
     List.length (engine_draws A val t table o R) = R /\
     forall d, In d (flat_map (names_of_kind KDraws) fs) ->
       exists ty g st m st',
-        assoc d (draw_types fs) = Some ty /\ find_generator A S native user ty = Some g /\
+        In (d, ty) (draws_decls fs) /\ find_generator A S native user ty = Some g /\
         g st N R = (m, st') /\
         forall r, r < R ->
           exists L x, nth_error (engine_draws A val t table o R) r = Some L /\
